@@ -1,4 +1,4 @@
-import MmtkModel.Model.SideMeta
+import MmtkModel.Model.SideMetaBulk
 import Driver.Util
 /-!
 # `side` component: the side-metadata accessors on a private window (C20–C22)
@@ -188,6 +188,34 @@ def step (debug : Bool) (st : St) (args : List String) : St × String :=
         let st' := commit st (setRawByte st.s1 (toMem st) (dataBase + a))
         (st', "- " ++ st'.w1.hex)
       | none => (st, "bad-op")
+    else if op == "addr" then
+      match rest.head?.bind num? with
+      | some a => (st, s!"{hexNat (metaAddr st.s1 (dataBase + a))} {lshift st.s1 (dataBase + a)}")
+      | none => (st, "bad-op")
+    else if op == "bbr" then
+      match nums? rest with
+      | some [sa, sb, ea, eb, fwd, stop] =>
+        let l := breakBitRange sa sb ea eb (fwd == 1)
+        let (ret, vis) := if stop = 0 ∨ stop > l.length then (false, l) else (true, l.take stop)
+        let sh : BBR → String
+          | .bytes x y => s!" B:{x}-{y}"
+          | .bits x y z => s!" b:{x}:{y}-{z}"
+        (st, showBool ret ++ String.join (vis.map sh))
+      | _ => (st, "bad-op")
+    else if op == "bzero" ∨ op == "bset" ∨ op == "bcopy" then
+      match nums? rest with
+      | some [a, sz] =>
+        let m := toMem st
+        let r : Option Mem :=
+          if op == "bzero" then some (bzero st.s1 m (dataBase + a) sz)
+          else if op == "bset" then some (bset st.s1 m (dataBase + a) sz)
+          else match st.s2 with
+            | none => none
+            | some s2 => bcopy debug st.s1 s2 m (dataBase + a) sz
+        match r with
+        | some m' => let st' := commit st m'; (st', "- " ++ st'.w1.hex)
+        | none => (st, "panic " ++ st.w1.hex)
+      | _ => (st, "bad-op")
     else if isAccessor op then
       match parseOp st.s1 op rest with
       | none => (st, "panic " ++ st.w1.hex)
